@@ -216,6 +216,16 @@ def finish(ctx, check_meta):
     return 1 if real else 0
 
 
+class _Diag:
+    """Picklable wrapper: diagnose(case, reject) for pmap."""
+
+    def __init__(self, fn):
+        self.fn = fn
+
+    def __call__(self, arg):
+        return self.fn(arg["case"], arg["reject"]) or {}
+
+
 # ---- stages: cases -> observations on the real code -> TLC judgement ----------------------------
 def run_stage(ctx, name, cases, fn, module, cfg=None, sig_keys=("label", "form"), nontrivial=None,
               raise_is_violation=True, judge_workers=2, diagnose=None, batch=None):
@@ -254,6 +264,12 @@ def run_stage(ctx, name, cases, fn, module, cfg=None, sig_keys=("label", "form")
             owner.append(case)
     ctx.evaluations += len(cases)
     v = ctx.judge(module, obs_list, cfg=cfg, workers=judge_workers)
+    diag = {}
+    if diagnose is not None and v.rejects:
+        # diagnoses may be expensive (exhaustive re-parses): in the process pool, one per rejected observation
+        dres = pmap(_Diag(diagnose), [{"case": owner[r["id"] - 1], "reject": {k: r[k] for k in ("id", "clause", "detail")}} for r in v.rejects])
+        for (arg, out, err) in dres:
+            diag[arg["reject"]["id"]] = out if err is None else {"diagnose_error": err.strip().splitlines()[-1][:80]}
     for r in v.rejects:
         case = owner[r["id"] - 1]
         sig = {"stage": name, "clause": r["clause"]}
@@ -261,10 +277,7 @@ def run_stage(ctx, name, cases, fn, module, cfg=None, sig_keys=("label", "form")
             if k in case:
                 sig[k] = case[k]
         if diagnose is not None:
-            try:
-                sig.update(diagnose(case, r) or {})
-            except Exception as ex:  # noqa: BLE001
-                sig["diagnose_error"] = repr(ex)[:80]
+            sig.update(diag.get(r["id"]) or {})
         ctx.violation(sig, "%s: %s rejected (%s); expected %s" % (name, case.get("text", case.get("label", "case")),
                                                                  r["clause"], r["detail"][:200]),
                       dict(case, observed=r["obs"], expected=r["detail"]))
